@@ -8,6 +8,19 @@ use muxide::verif_hooks::mp4::{Mp4AudioTrack, Mp4VideoTrack, Mp4Writer};
 
 pub const K: usize = 12;
 
+/// Native replay mode: set by the generated playback test before it runs a harness. Kani's
+/// concrete playback does not apply stubs, so the real build_moov_box runs there; harnesses
+/// then judge the REAL output file with `native_mp4` instead of the recorded tables.
+static mut REPLAY: bool = false;
+pub fn set_replay(on: bool) {
+    unsafe {
+        REPLAY = on;
+    }
+}
+pub fn replay_mode() -> bool {
+    unsafe { REPLAY }
+}
+
 /// Sink that records, per `write` call, the accepted length and the first byte, and can
 /// be scripted to fail or shorten writes (C13).
 pub struct RecSink {
@@ -22,10 +35,12 @@ pub struct RecSink {
     pub fault_intr: bool,
     pub fault_accept: usize,
     pub failed: bool,
+    /// every accepted byte — filled only in native replay mode (never during verification)
+    pub log: Vec<u8>,
 }
 impl RecSink {
     pub fn new() -> Self {
-        RecSink { calls: 0, lens: [0; K], firsts: [0; K], total: 0, fault_at: usize::MAX, fault_fail: false, fault_intr: false, fault_accept: usize::MAX, failed: false }
+        RecSink { calls: 0, lens: [0; K], firsts: [0; K], total: 0, fault_at: usize::MAX, fault_fail: false, fault_intr: false, fault_accept: usize::MAX, failed: false, log: Vec::new() }
     }
     /// absolute position at which the write whose first byte is `tag` started
     /// (loop-free: unrolled over the K record slots so that harness unwind bounds stay small)
@@ -77,6 +92,9 @@ impl std::io::Write for RecSink {
                 // a sink that takes nothing: write_all turns this into a WriteZero failure
                 self.failed = true;
             }
+        }
+        if replay_mode() {
+            self.log.extend_from_slice(&buf[..n]);
         }
         if idx < K {
             self.lens[idx] = n;
@@ -234,5 +252,81 @@ pub fn final_call(c: &mp4h::MoovCarrier) -> mp4h::MoovCall {
         c.call1.get()
     } else {
         c.call0.get()
+    }
+}
+
+// ---------------------------------------------------------------------------------------
+// Native replay oracle for the finalize family: everything the harnesses assert through the
+// recording stand-in, re-checked on the real file (real moov) that a concrete replay produces.
+// Panics (= counterexample reproduced) on the first violated clause.
+// ---------------------------------------------------------------------------------------
+pub fn native_finalize_check<const NV: usize, const NA: usize>(file: &[u8], vpts: &[u64; NV], vkey: &[bool; NV], apts: &[u64; NA], audio_track: bool, fast_start: bool) {
+    use crate::native_mp4::parse;
+    let p = match parse(file) {
+        Ok(p) => p,
+        Err(e) => panic!("native replay: output is not a well-formed box tree: {}", e),
+    };
+    let names: Vec<[u8; 4]> = p.top.iter().map(|t| t.0).collect();
+    let have_mdat = NV + NA > 0 || fast_start || audio_track;
+    let want: Vec<[u8; 4]> = if !have_mdat {
+        vec![*b"ftyp", *b"moov"]
+    } else if fast_start {
+        vec![*b"ftyp", *b"moov", *b"mdat"]
+    } else {
+        vec![*b"ftyp", *b"mdat", *b"moov"]
+    };
+    assert!(names == want, "native replay: top-level box order {:?} differs from the layout", names);
+    assert!(p.tracks.len() == if audio_track { 2 } else { 1 }, "native replay: one track per configured stream");
+    let mdat = p.top.iter().find(|t| &t.0 == b"mdat");
+    let v = &p.tracks[0];
+    assert!(&v.handler == b"vide" && v.stsz.len() == NV, "native replay: video track has one table row per sample");
+    let vr = v.sample_ranges().unwrap_or_else(|e| panic!("native replay: video chunk tables inconsistent: {}", e));
+    let mut all: Vec<(usize, usize)> = Vec::new();
+    for i in 0..NV {
+        assert!(vr[i].1 - vr[i].0 == VSIZE[i], "native replay: video sample {} has the wrong size", i);
+        assert!(file[vr[i].0..vr[i].1].iter().all(|&b| b == vtag(i)), "native replay: video sample {} does not resolve to its own payload bytes", i);
+        all.push(vr[i]);
+    }
+    let keys: Vec<u32> = (0..NV).filter(|&i| vkey[i]).map(|i| i as u32 + 1).collect();
+    assert!(v.stss.clone().unwrap_or_default() == keys, "native replay: sync table differs from the submitted key flags");
+    // timing tables as built by `build_writer`
+    let want_d: Vec<u32> = (0..NV).map(|_| if NV > 1 { 1000 } else { 1 }).collect();
+    assert!(v.durations() == want_d, "native replay: video durations differ");
+    let want_c: Vec<i32> = (0..NV).map(|i| (vpts[i] as i64 - 1000 * i as i64) as i32).collect();
+    let any = want_c.iter().any(|&c| c != 0);
+    assert!(v.cts().is_some() == any, "native replay: ctts present iff some offset is non-zero");
+    if let Some(c) = v.cts() {
+        assert!(c == want_c, "native replay: composition offsets differ");
+    }
+    assert!(v.mdhd_duration as u64 == want_d.iter().map(|&d| d as u64).sum::<u64>(), "native replay: mdhd duration differs from the table sum");
+    if audio_track {
+        let a = &p.tracks[1];
+        assert!(&a.handler == b"soun" && a.stsz.len() == NA, "native replay: audio track has one table row per sample");
+        let ar = a.sample_ranges().unwrap_or_else(|e| panic!("native replay: audio chunk tables inconsistent: {}", e));
+        for j in 0..NA {
+            assert!(ar[j].1 - ar[j].0 == ASIZE[j], "native replay: audio sample {} has the wrong size", j);
+            assert!(file[ar[j].0..ar[j].1].iter().all(|&b| b == atag(j)), "native replay: audio sample {} does not resolve to its own payload bytes", j);
+            all.push(ar[j]);
+        }
+        assert!(a.stss.is_none(), "native replay: audio has no sync table");
+    }
+    if let Some(m) = mdat {
+        // ranges inside mdat, pairwise disjoint, covering its payload exactly
+        all.sort();
+        let mut pos = m.1 + 8;
+        for r in &all {
+            assert!(r.0 == pos, "native replay: sample ranges do not tile the mdat payload");
+            pos = r.1;
+        }
+        assert!(pos == m.1 + m.2, "native replay: sample ranges do not cover the mdat payload exactly");
+        // storage order = merge by (pts, video first, index)
+        if audio_track {
+            for i in 0..NV {
+                let want = m.1 + 8 + bytes_before(vpts, apts, rank(vpts, apts, 0, i)) as usize;
+                assert!(vr[i].0 == want, "native replay: video sample {} is not stored at its timestamp-merge position", i);
+            }
+        }
+    } else {
+        assert!(all.is_empty());
     }
 }
